@@ -3,9 +3,13 @@
 import json, os, subprocess, sys
 from concurrent.futures import ThreadPoolExecutor
 args = sys.argv[1:]
-jobs = 4
-if args and args[0] == '-j':
-    jobs = int(args[1]); args = args[2:]
+jobs, base = 4, 0
+while args and args[0] in ('-j', '--slot-base'):
+    if args[0] == '-j':
+        jobs = int(args[1])
+    else:
+        base = int(args[1])  # first slot directory to use (two batches at once must not share slots)
+    args = args[2:]
 here = os.path.dirname(os.path.abspath(__file__))
 import queue
 slots = queue.Queue()
@@ -22,7 +26,7 @@ def one(tag):
     det = {k: (v.get('exit'), [s.split('signature:')[-1].strip() for s in v.get('summary', []) if 'signature' in s][:2]) for k, v in m.get('detected', {}).items()}
     return '%s confirmed=%s %s' % (tag, m.get('confirmation', {}).get('confirmed'), det)
 for k in range(jobs):
-    slots.put(k)
+    slots.put(base + k)
 with ThreadPoolExecutor(max_workers=jobs) as ex:
     for line in ex.map(one, args):
         print(line); sys.stdout.flush()
